@@ -366,3 +366,90 @@ Section Peers.
     rewrite app_length in IH. simpl in IH. rewrite Nat.add_1_r in IH. apply IH; auto.
   Qed.
 End Peers.
+
+(* ------------------------------------------------------------------ *)
+(** * Reading the invariant; decidable proviso; an example *)
+Lemma tracked_mono ops : forall n T x, In x T -> In x (tracked n T ops).
+Proof.
+  induction ops as [|[o fa] t IH]; intros n T x H; simpl; auto.
+  apply IH. destruct o; simpl; auto.
+Qed.
+Lemma tracked_ctor ops : forall n T i c pos kw fa,
+  nth_error ops i = Some (OpConstruct c pos kw, fa) -> In (n + i) (tracked n T ops).
+Proof.
+  induction ops as [|[o fa0] t IH]; intros n T i c pos kw fa H; [destruct i; discriminate|].
+  destruct i as [|i]; simpl in H |- *.
+  - inversion H; subst. apply tracked_mono. simpl. rewrite Nat.add_0_r. auto.
+  - replace (n + S i) with (S n + i) by lia. eapply IH; eauto.
+Qed.
+
+Fixpoint run_wfb (ct : ctable) (s : state) (roots : list val) (ops : list (op * option nat)) : bool :=
+  match ops with
+  | [] => true
+  | (o, fa) :: t =>
+      wf_heapb (heap s) &&
+      let '(r, s') := step ct roots o (mkst (heap s) 0 fa) in
+      run_wfb ct s' (roots ++ [match r with Ok v => v | Err _ => VNone end]) t
+  end.
+Lemma run_wfb_ok ct ops : forall s roots, run_wfb ct s roots ops = true -> run_wf ct s roots ops.
+Proof.
+  induction ops as [|[o fa] t IH]; intros s roots H; simpl in *; auto.
+  apply andb_true_iff in H. destruct H as [H1 H2]. split; [now apply wf_heapb_ok|].
+  destruct (step ct roots o (mkst (heap s) 0 fa)) as [r s']. auto.
+Qed.
+
+(* two instances created by constructor calls of a covered history share no cell at its end *)
+Theorem ctor_peers_disjoint ct :
+  (forall c k, lookup_cls ct c = Some k -> c_dnc k = false) -> scalar_table ct -> tgb ct = true ->
+  (forall k sp, In k ct -> In sp (c_attrs k) -> a_dnc sp = false) ->
+  forall ops s roots,
+    ops_ok ct (length roots) [] ops -> run_wf ct s roots ops ->
+    forall i j ci pi kwi fi cj pj kwj fj li lj,
+      nth_error ops i = Some (OpConstruct ci pi kwi, fi) ->
+      nth_error ops j = Some (OpConstruct cj pj kwj, fj) -> i <> j ->
+      nth (length roots + i) (snd (run_ops ct s roots ops)) VNone = VRef li ->
+      nth (length roots + j) (snd (run_ops ct s roots ops)) VNone = VRef lj ->
+      li <> lj /\
+      forall z, reach (heap (fst (run_ops ct s roots ops))) li z ->
+                reach (heap (fst (run_ops ct s roots ops))) lj z -> False.
+Proof.
+  intros H1 H2 H3 H4 ops s roots Hok Hwf i j ci pi kwi fi cj pj kwj fj li lj Hi Hj Hne Ei Ej.
+  assert (Hpd0 : PD s roots []).
+  { split; [intros x []|]. split; [intros x l []|]. split; [intros x y lx ly []|intros x y lx ly z []]. }
+  destruct (peers_disjoint_history ct H1 H2 H3 H4 ops s roots [] Hok Hwf Hpd0) as (_ & _ & P3 & P4).
+  pose proof (tracked_ctor ops (length roots) [] i ci pi kwi fi Hi) as Ti.
+  pose proof (tracked_ctor ops (length roots) [] j cj pj kwj fj Hj) as Tj.
+  assert (Hll : li <> lj) by (eapply (P3 (length roots + i) (length roots + j)); eauto; lia).
+  split; [exact Hll|]. intros z R1 R2. eapply (P4 (length roots + i) (length roots + j) li lj z); eauto.
+Qed.
+
+(* class 2: xs : List[int] = [1] (class-level default object: cell 0), n : int = 3 *)
+Definition exp_ct : ctable :=
+  [mkcls 2 [mkattr 50 (TList TInt) (VRef 0) None 2 true false None None [];
+            mkattr 51 TInt (VInt 3) None 2 true false None None []]
+         false false None [2] 2 [] None None].
+(* p = C(); q = C(); p.n = 7; p.with_n(9); q.with_x(5) (a copy) *)
+Definition exp_ops : list (op * option nat) :=
+  [(OpConstruct 2 None [], None);
+   (OpConstruct 2 None [], None);
+   (OpSetAttr 1 51 (VInt 7), None);
+   (OpHelper 1 (HWith 51) (mkh [VInt 9] false true VMissing false None None [] None), None);
+   (OpHelper 2 (HWithItem 50) (mkh [VInt 5] false true VMissing false None None [] None), None)].
+
+Example peers_disjoint_nonvacuous :
+  tgb exp_ct = true /\
+  ops_ok exp_ct 1 [] exp_ops /\
+  run_wfb exp_ct (mkst [OList [VInt 1]] 0 None) [VRef 0] exp_ops = true /\
+  (let '(s', roots') := run_ops exp_ct (mkst [OList [VInt 1]] 0 None) [VRef 0] exp_ops in
+   roots' = [VRef 0; VRef 1; VRef 3; VNone; VRef 5; VRef 8] /\
+   heap s' = [OList [VInt 1];
+              OInst 2 [(50, VRef 2); (51, VInt 7)]; OList [VInt 1];
+              OInst 2 [(50, VRef 4); (51, VInt 3)]; OList [VInt 1];
+              OInst 2 [(50, VRef 6); (51, VInt 9)]; OList [VInt 1];
+              OList [VInt 1; VInt 5]; OInst 2 [(50, VRef 7); (51, VInt 3)]; OList [VInt 1]]).
+Proof.
+  split; [reflexivity|]. split.
+  - simpl. unfold no_dependants. repeat split; auto; try (constructor; fail); try (repeat constructor; fail).
+    intros k [<-|[]]. reflexivity.
+  - split; [vm_compute; reflexivity|]. vm_compute. split; reflexivity.
+Qed.
